@@ -197,6 +197,7 @@ func runC11(c *core.Ctx, r *core.Reporter) {
 	c11skip(c, r)
 	c11walk(c, r, "C11.walk")
 	c10shadow(c, r, "C11.shadow")
+	c10wrapscope(c, r, "C11.wrapscope")
 	c11combwrite(c, r)
 	c11insertpos(c, r)
 }
